@@ -327,6 +327,15 @@ def check(P, R):
     R.ob('C02.d', hd, raise404[0] if raise404 else hd.node, ok, text='404 -> raise HTTPError(status, body)', detail='' if ok else '404 branch malformed',
          nontrivial=False)
 
+    # route objects are tested by truthiness (`if not route`, `if route_`, `if pnode[DATA]`): the classes must be unconditionally truthy
+    for cfq in (f'{RR}:Route', f'{RR}:RouteMethod'):
+        c = P.cls(cfq)
+        bad = [m for k in P.mro(c) for m in ('__len__', '__bool__') if m in k.methods]
+        R.ob('C02.d', c.fq, None, not bad, text=f'{c.name} defines neither __len__ nor __bool__', detail='' if not bad else
+             f'{c.name} defines {bad}: an instance can be falsy (e.g. a route whose methods were all removed), and the router\'s `if not route` / '
+             f'`if route_` / `if pnode[DATA]` tests then treat a registered route as absent: 404 instead of 405, or a duplicate route',
+             why='405 for a path that matches a route; never 404', key_extra=c.name)
+
     # ---- e
     r405 = [r for r in rets if any(isinstance(x, ast.Constant) and x.value == 405 for x in ast.walk(r.value))]
     for r in r405:
